@@ -76,6 +76,13 @@ func verifCheckStore(t *testing.T, s storage.StateStorer) bool {
 	err := s.Iterate("p_", func(k, v []byte) (bool, error) { n++; if n == 2 { return false, boom }; return false, nil })
 	if !errors.Is(err, boom) { t.Logf("REPLAY-CONFIRMED the callback's error was not returned by Iterate (got %v)", err); return true }
 	if n != 2 { t.Logf("REPLAY-CONFIRMED callback invoked again after it returned an error (%d calls)", n); return true }
+	// error together with stop, at the first, a middle and the last key
+	for _, at := range []int{1, 3, len(want)} {
+		n = 0
+		err = s.Iterate("p_", func(k, v []byte) (bool, error) { n++; if n == at { return true, boom }; return false, nil })
+		if !errors.Is(err, boom) { t.Logf("REPLAY-CONFIRMED callback returned (stop=true, error) at key %d: Iterate returned %v instead of the error", at, err); return true }
+		if n != at { t.Logf("REPLAY-CONFIRMED callback invoked %d times although it stopped with an error at key %d", n, at); return true }
+	}
 	return false
 }
 '''
